@@ -45,11 +45,15 @@ def check_gen(pid, tier):
         sim = job[3] if len(job) > 3 else None
         v.add_mc(run_mc(name, mod, cfg, simulate=sim, required_actions=None if sim else (GEN_REQUIRED.get(mod) if tier == "thorough" else None)))
     files = sorted(glob.glob(os.path.join(out, "*.ndjson")))
-    res = run_tv("TraceGen.tla", "TraceGen.cfg", files, timeout=3000)
-    v.add_tv("TraceGen:" + GEN_MODE[pid], res)
+    # thorough: the implementation-shaped model L2 runs in lock-step with L1 on every trace
+    lock = tier == "thorough" and pid in ("C01", "C03", "C12", "C13")
+    res = run_tv("TraceGen.tla", "TraceGen_lockstep.cfg" if lock else "TraceGen.cfg", files, timeout=6000)
+    v.add_tv("TraceGen%s:%s" % ("(lock-step L2)" if lock else "", GEN_MODE[pid]), res)
     cache = {}
     for r in res:
         if not r["accepted"]:
+            if any("spec-l2-vs-l1" in m for m in r["mismatch"]):
+                raise ToolError("the specification's layers L2 and L1 disagree on a real execution (%s event %s): specification inconsistency, not a verdict about the code" % (r["file"], r["rejected_at"]))
             _gen_violation(v, r, cache)
     st = list(stats.values())[0] if stats else {}
     nev = sum(1 for f in files for _ in open(f))
